@@ -265,6 +265,12 @@ func (g *coreGen) floatExpr(vars []gvar, d int) string {
 	case 3:
 		return fmt.Sprintf("float64(%s)", g.intExpr(vars, d-1))
 	default:
+		// division by a literal that is not a power of two, with a run-time dividend (a float variable: a constant
+		// dividend would be folded exactly by Go): x / c and x * (1/c) round differently
+		if len(fv) > 0 && g.r.chance(60) {
+			g.kinds["float variable divided by a non-power-of-two literal"]++
+			return fmt.Sprintf("(%s / %s)", pick(g.r, fv), pick(g.r, []string{"3.0", "10.0", "0.3", "7.0", "1.1", "60.0", "49.0"}))
+		}
 		return fmt.Sprintf("(%s / 4.0)", g.floatExpr(vars, d-1))
 	}
 }
